@@ -82,6 +82,9 @@ def guards():
     add("ChefCache repaired", mc("ChefCache", cc, ["EveryCookUsesItsOwnState"]), None)
     add("ChefCache pool never dropped", mc("ChefCache", dict(cc, ClearPolicy='"never"'), ["EveryCookUsesItsOwnState"]), "EveryCookUsesItsOwnState")
     add("ChefCache pool dropped for new shapes only", mc("ChefCache", dict(cc, ClearPolicy='"new_shapes"'), ["EveryCookUsesItsOwnState"]), "EveryCookUsesItsOwnState")
+    add("PoolLife pool kept referenced", mc("PoolLife", dict(N=2, KeepRef="TRUE"), ["NoWedge"], props=["CallerFinishes"], spec="Spec"), None)
+    add("PoolLife empty job, pool dropped", mc("PoolLife", dict(N=0, KeepRef="FALSE"), ["NoWedge"], spec="Spec"), "NoWedge")
+    add("PoolLife workers faster than the task handler", mc("PoolLife", dict(N=2, KeepRef="FALSE"), ["NoWedge"], spec="Spec"), "NoWedge")
     r12 = dict(MaxN=3, MaxW=3, Gather='"by_task"')
     add("C12 repaired", mc("MC_C12", r12, ["ScheduleFree"]), None)
     add("C12 gather by arrival", mc("MC_C12", dict(r12, Gather='"by_arrival"'), ["ScheduleFree"]), "ScheduleFree")
